@@ -47,7 +47,12 @@ def gen(rs: int, tier: str, index: int) -> dict:
         s["config"]["entry"] = "api"
         s["config"]["N"] = None
         fails = sorted(r.randint(1, max(1, n - 2)) for _ in range(r.choice([1, 1, 2])))
-        s["config"]["listen_fail_after"] = fails
+        if r.random() < 0.4:
+            # the broker ends the stream in an orderly way instead: the receiver drains what it holds, returns, and a new one subscribes -
+            # no new session, the bound holds across it
+            s["config"]["listen_end_after"] = fails
+        else:
+            s["config"]["listen_fail_after"] = fails
         for m in s["messages"]:
             if isinstance(m.get("task"), int) and s["tasks"][m["task"]].get("sync"):
                 m["task"] = 0
